@@ -32,11 +32,15 @@ PROP = "C08"
 LEVEL = "exploration"
 RULE = (
     "one case = one export->load round trip of a generated geometry (mesh classes: single face, "
-    "integer / unit / 1e-3..1e6 magnitudes of both signs, special values, seams with coincident "
+    "integer / unit / 1e-9..1e6 magnitudes of both signs, special values, seams with coincident "
     "and near-coincident vertices, degenerate and unreferenced, attributes, >65535 indices, "
-    "x {no, face, vertex} colours; point clouds; instanced / nested / renamed scene graphs with "
-    "rigid, similarity, mirror and affine edges; Path2D/3D with lines, arcs, circles; cubic "
-    "voxel grids) through every exporter that has a loader (enumerated from the registries) x "
+    "empty and vertices-only x every export option, x {no, face, vertex} colours; point clouds; "
+    "instanced / nested / renamed scene graphs with rigid, similarity, mirror and affine edges, "
+    "specially treated node names (world, camera*, xml characters, digits, non-ascii), a renamed "
+    "base frame, edges within 1e-8 of the identity, scenes holding Path2D / Path3D (dict, glb, "
+    "gltf) and scenes of planar-placed drawings (svg); Path2D/3D with lines, arcs, circles and "
+    "(dict) Bezier / B-spline entities; cubic voxel grids and boxes with uniform / non-uniform "
+    "extents) through every exporter that has a loader (enumerated from the registries) x "
     "its options x load / load_mesh / load_scene / load_path / file-name routes. Enumerated "
     "first (seed independent), then sampled. distinct = distinct (kind:format tag, options, "
     "route, geometry class, colours, generator seed); non-trivial = geometry not empty and at "
@@ -102,6 +106,10 @@ ASSUMPTIONS = [
     "coincident vertices are judged on the Trimesh(**load_dict(d), process=False) route only",
     "world placement of reloaded scenes is read from graph.transforms.edge_data / node_data by "
     "an own traversal (self loops ignored)",
+    "load_collada does not forward process=False: DAE vertices that have another vertex within "
+    "2e-8 (tol.merge territory) are compared with that tolerance and their colours are not judged",
+    "a binvox file stores one scale: a grid whose extents pitch*(shape-1) differ between axes may "
+    "be refused with the exporter's documented ValueError (counted), never written displaced",
 ]
 EXHAUSTIVE = {"quick": False, "thorough": False}
 
@@ -112,7 +120,8 @@ I4 = np.eye(4)
 # from the exporter code:
 #   stl (binary)   _stl_dtype '<f4'                         |d| <= ulp32(x)
 #   ply binary     dtype_vertex ('vertex','<f4',3)          |d| <= ulp32(x)
-#   ply ascii      '<f4' then '{:.8f}' then parsed as f4    |d| <= 1e-8 + ulp32(x)
+#   ply ascii      header `property float x` (float32)      |d| <= ulp32(x)   (round 4; the
+#                  writer's own '{:.8f}' grid, 1e-8 + ulp32(x), only NAMES the symptom)
 #   glb / gltf     mesh.vertices.astype(float32)            |d| <= ulp32(x)
 #   off            array_to_string(digits=D) '{:.Df}' D=10  |d| <= .5e-D + ulp64(x)
 #   obj            array_to_string(digits=D) D=8            |d| <= .5e-D + ulp64(x)
@@ -308,7 +317,10 @@ class CloudSpec:
 
 
 class PathSpec:
-    """entities: ('line', [i...]) or ('arc', [i, j, k], closed)."""
+    """
+    entities: ('line', [i...]) | ('arc', [i, j, k], closed) | ('bezier', [i...]) |
+    ('bspline', [i...], [knots...]).
+    """
 
     def __init__(self, cls, gseed, V, entities):
         self.cls, self.gseed = cls, int(gseed)
@@ -320,7 +332,9 @@ class PathSpec:
     empty = False
 
     def features(self):
-        return ""
+        # the line / arc classes keep their historic (empty) feature string
+        curves = sorted({e[0] for e in self.entities if e[0] in ("bezier", "bspline")})
+        return "entities=" + "+".join(curves) if curves else ""
 
     def entity_feature(self):
         return "entities=%s" % ("single" if len(self.entities) == 1 else "multi")
@@ -330,12 +344,16 @@ class PathSpec:
 
     def build(self):
         from trimesh.path import Path2D, Path3D
-        from trimesh.path.entities import Arc, Line
+        from trimesh.path.entities import Arc, Bezier, BSpline, Line
 
         ents = []
         for e in self.entities:
             if e[0] == "line":
                 ents.append(Line(np.array(e[1], dtype=np.int64)))
+            elif e[0] == "bezier":
+                ents.append(Bezier(np.array(e[1], dtype=np.int64)))
+            elif e[0] == "bspline":
+                ents.append(BSpline(np.array(e[1], dtype=np.int64), knots=np.array(e[2], dtype=np.float64)))
             else:
                 ents.append(Arc(np.array(e[1], dtype=np.int64), closed=bool(e[2])))
         cls = Path2D if self.V.shape[1] == 2 else Path3D
@@ -351,6 +369,8 @@ class PathSpec:
                 return "entities"
             if s[0] == "arc" and bool(e.closed) != bool(s[2]):
                 return "entity_closed"
+            if s[0] == "bspline" and not np.array_equal(np.asarray(e.knots, dtype=np.float64), np.asarray(s[2], dtype=np.float64)):
+                return "entity_knots"
         return None
 
     # ---- expected primitives, from the spec alone
@@ -375,10 +395,12 @@ class VoxelSpec:
     def __init__(self, cls, gseed, mat, pitch, origin, mirror=(), enc="dense"):
         self.cls, self.gseed = cls, int(gseed)
         self.mat = np.asarray(mat, dtype=bool)
-        self.pitch, self.origin = float(pitch), np.asarray(origin, dtype=np.float64)
+        # pitch: one number, or one (positive) number per axis
+        self.pitchv = np.broadcast_to(np.asarray(pitch, dtype=np.float64), (3,)).copy()
+        self.pitch, self.origin = float(self.pitchv.max()), np.asarray(origin, dtype=np.float64)
         self.mirror, self.enc = tuple(mirror), enc
         T = np.eye(4)
-        s = np.full(3, self.pitch)
+        s = self.pitchv.copy()
         for a in self.mirror:
             s[a] *= -1
         T[:3, :3] = np.diag(s)
@@ -389,9 +411,37 @@ class VoxelSpec:
     def empty(self):
         return False
 
+    @property
+    def extent_pattern(self):
+        """
+        None for a cubic grid with one pitch.  Otherwise the equality pattern of the three
+        first-to-last-centre extents pitch * (shape - 1), the only thing a binvox file stores
+        (ONE `scale`): 'uniform' (representable), or 'abb' / 'aab' / 'aba' / 'abc'.
+        """
+        shape = np.array(self.mat.shape)
+        if len(set(self.mat.shape)) == 1 and len(set(self.pitchv.tolist())) == 1:
+            return None
+        e = self.pitchv * (shape - 1)
+
+        def eq(i, j):
+            return abs(e[i] - e[j]) <= 1e-9 * e.max()
+
+        if eq(0, 1) and eq(1, 2):
+            return "uniform"
+        if eq(1, 2):
+            return "abb"
+        if eq(0, 1):
+            return "aab"
+        if eq(0, 2):
+            return "aba"
+        return "abc"
+
     def features(self):
-        n = self.mat.shape[0]
-        return "enc=%s mirrored=%s n=%s" % (self.enc, "yes" if self.mirror else "no", "1" if n == 1 else "gt1")
+        n = min(self.mat.shape)
+        f = "enc=%s mirrored=%s n=%s" % (self.enc, "yes" if self.mirror else "no", "1" if n == 1 else "gt1")
+        if self.extent_pattern is not None:
+            f += " extent=%s" % self.extent_pattern
+        return f
 
     def gen(self):
         return {"kind": "voxel", "cls": self.cls, "gseed": self.gseed}
@@ -423,16 +473,42 @@ class VoxelSpec:
         return apply(self.T, np.argwhere(self.mat).astype(np.float64))
 
 
+def name_class(name):
+    """structural class of a node name that an exporter / loader may treat specially, or None."""
+    if name == "world":
+        return "world"  # the default base frame name (the glTF loader's own base frame)
+    if name.startswith("camera"):
+        return "camera_prefix"  # Scene.camera nodes are auto-named camera_XXXXXX
+    if any(c in name for c in "<>&\"'"):
+        return "xml_chars"
+    if name.isdigit():
+        return "numeric"
+    if any(ord(c) > 127 for c in name):
+        return "non_ascii"
+    if " " in name:
+        return "space"
+    return None
+
+
+def near_identity(M):
+    """not the identity, but every entry within the library's 1e-8 of it."""
+    d = np.abs(np.asarray(M, dtype=np.float64) - I4).max()
+    return 0.0 < d < 1e-8
+
+
 class SceneSpec:
-    """geoms: {name: spec}; nodes: [(node, parent|None, M, geom|None)] parents first."""
+    """
+    geoms: {name: spec}; nodes: [(node, parent|None, M, geom|None)] parents first; base: name of
+    the base frame (parent None).
+    """
 
     kind = "scene"
     colors = "none"
     empty = False
 
-    def __init__(self, cls, gseed, geoms, nodes):
+    def __init__(self, cls, gseed, geoms, nodes, base="world"):
         self.cls, self.gseed = cls, int(gseed)
-        self.geoms, self.nodes = geoms, nodes
+        self.geoms, self.nodes, self.base = geoms, nodes, base
 
     def features(self):
         return "class=%s" % self.cls
@@ -443,7 +519,7 @@ class SceneSpec:
     def build(self):
         import trimesh
 
-        s = trimesh.Scene()
+        s = trimesh.Scene() if self.base == "world" else trimesh.Scene(base_frame=self.base)
         for name, g in self.geoms.items():
             s.geometry[name] = g.build()
         for node, parent, M, geom in self.nodes:
@@ -452,6 +528,8 @@ class SceneSpec:
         return s
 
     def intact(self, obj):
+        if obj.graph.base_frame != self.base:
+            return "base_frame"
         if list(obj.geometry.keys()) != list(self.geoms.keys()):
             return "geometry_names"
         for name, g in self.geoms.items():
@@ -463,7 +541,7 @@ class SceneSpec:
         if len(ed) != len(self.nodes):
             return "edge_count"
         for node, parent, M, geom in self.nodes:
-            e = ed.get((parent or "world", node))
+            e = ed.get((parent or self.base, node))
             if e is None or not np.array_equal(np.asarray(e.get("matrix")), M):
                 return "edge_matrix"
             if nd.get(node, {}).get("geometry") != geom:
@@ -479,8 +557,14 @@ class SceneSpec:
           internal_geomnode     the node carries geometry and has children
           base_leaf_renamed     leaf directly under the base frame, node name != geometry name
           base_leaf / nested_leaf
+        followed by (classes added for round 4, absent for every older scene class)
+          name=<name_class>     the node, else its nearest ancestor, has a specially treated name
+          base=renamed          the base frame of the scene is not called "world"
+        An instance whose path holds an edge within 1e-8 of the identity (but not the identity)
+        is 'edge=near_identity' whatever its node class.
         """
-        world = {None: I4, "world": I4}
+        world = {None: I4, self.base: I4}
+        edge_of = {n: M for n, _, M, _ in self.nodes}
         parent_of = {n: p for n, p, _, _ in self.nodes}
         has_child = {p for _, p, _, _ in self.nodes if p is not None}
         geom_of = {n: g for n, _, _, g in self.nodes}
@@ -508,7 +592,16 @@ class SceneSpec:
                 cat = "base_leaf" if node == geom else "base_leaf_renamed"
             else:
                 cat = "nested_leaf"
-            out.append((node, geom, W, "node=" + cat))
+            feat = "node=" + cat
+            if any(near_identity(edge_of[n]) for n in path):
+                feat = "edge=near_identity"
+            else:
+                nc = next((name_class(n) for n in path[::-1] if name_class(n)), None)
+                if nc:
+                    feat += " name=" + nc
+            if self.base != "world":
+                feat += " base=renamed"
+            out.append((node, geom, W, feat))
         return out
 
 
@@ -638,6 +731,7 @@ def segs_match(exp, got, tol_fn):
 MESH_CLASSES = (
     "single_face", "soup_int", "soup_unit", "mag_1e-3", "mag_1e3", "mag_1e6", "mag_mixed",
     "special_values", "seam", "degenerate", "unreferenced", "attrs", "big_sparse", "big_grid", "empty",
+    "mag_1e-9", "points_only",
 )
 _SPECIAL = np.array(
     [0.0, -0.0, 0.5, -0.5, 1.0, -1.0, 0.1, -0.1, 1.0 / 3.0, 1e-3, -1e-3, 2.0**-10, 1.0 - 2.0**-24,
@@ -667,6 +761,9 @@ def gen_mesh(cls, colors, gseed):
     vattr = fattr = None
     if cls == "empty":
         return MeshSpec(cls, "none", gseed, np.zeros((0, 3)), np.zeros((0, 3), dtype=np.int64))
+    if cls == "points_only":
+        # vertices but not a single face: as empty as a mesh with vertices can be
+        return MeshSpec(cls, "none", gseed, rng.uniform(-1, 1, size=(int(rng.integers(1, 6)), 3)), np.zeros((0, 3), dtype=np.int64))
     if cls == "single_face":
         V = rng.uniform(-10, 10, size=(3, 3))
         F = np.array([[0, 1, 2]])
@@ -674,9 +771,9 @@ def gen_mesh(cls, colors, gseed):
         nv = int(rng.integers(4, 25))
         V = rng.integers(-99, 100, size=(nv, 3)).astype(np.float64)
         F = _faces_cover(rng, nv, int(rng.integers(0, 20)))
-    elif cls in ("soup_unit", "attrs", "mag_1e-3", "mag_1e3", "mag_1e6"):
+    elif cls in ("soup_unit", "attrs", "mag_1e-3", "mag_1e3", "mag_1e6", "mag_1e-9"):
         nv = int(rng.integers(4, 30))
-        scale = {"mag_1e-3": 1e-3, "mag_1e3": 1e3, "mag_1e6": 1e6}.get(cls, 1.0)
+        scale = {"mag_1e-3": 1e-3, "mag_1e3": 1e3, "mag_1e6": 1e6, "mag_1e-9": 1e-9}.get(cls, 1.0)
         V = rng.uniform(-1, 1, size=(nv, 3)) * scale
         F = _faces_cover(rng, nv, int(rng.integers(0, 25)))
         if cls == "attrs":
@@ -767,7 +864,10 @@ def gen_cloud(cls, colors, gseed):
 
 
 PATH2D_CLASSES = ("polygon", "polyline", "arc", "circle", "mixed", "mixed_small", "mixed_large", "shared")
-PATH3D_CLASSES = ("lines3d_one", "lines3d_multi", "arcs3d")
+PATH3D_CLASSES = ("lines3d_one", "lines3d_multi", "arcs3d", "lines3d_small")
+# Bezier / B-spline entities: only for formats that store entities as such (PATH_FORMATS "curves")
+PATH2D_CURVE_CLASSES = ("bezier", "bspline", "curves_mixed")
+PATH3D_CURVE_CLASSES = ("curves3d",)
 _ARC_SPANS = [(60, 150), (210, 300)]
 
 
@@ -797,8 +897,38 @@ def gen_path(cls, gseed):
         else:
             E.append(("arc", idx, closed))
 
+    if cls in PATH2D_CURVE_CLASSES or cls in PATH3D_CURVE_CLASSES:
+        dim = 3 if cls in PATH3D_CURVE_CLASSES else 2
+        kinds = {"bezier": ["bezier"], "bspline": ["bspline"]}.get(cls) or ["line", "bezier", "bspline", "arc"][: int(rng.integers(3, 5))]
+        n = 0
+        for k, kd in enumerate(kinds):
+            off = np.zeros(dim)
+            off[0] = 20.0 * k
+            if kd == "arc":
+                p2 = _arc_points(rng, (0.0, 0.0), rng.uniform(0.5, 4.0))
+                P = np.column_stack([p2, np.zeros((3, dim - 2))]) + off
+                E.append(("arc", list(range(n, n + 3)), False))
+            else:
+                m = 4 if kd == "bezier" else int(rng.integers(2 if kd == "line" else 4, 8))
+                P = rng.uniform(-5, 5, size=(m, dim)) + off
+                idx = list(range(n, n + m))
+                if kd == "bspline":
+                    # clamped cubic knot vector: m + 4 knots
+                    inner = np.sort(rng.uniform(0.1, 0.9, size=m - 4)).tolist()
+                    E.append(("bspline", idx, [0.0] * 4 + inner + [1.0] * 4))
+                else:
+                    E.append((kd, idx))
+            V.append(P)
+            n += len(P)
+        return PathSpec(cls, gseed, np.vstack(V), E)
+
     if cls in PATH3D_CLASSES:
         n_ent = 1 if cls == "lines3d_one" else int(rng.integers(2, 5))
+        if cls == "lines3d_small":
+            # a polyline of a drawing in small units (all coordinates of order 1e-3)
+            for k in range(n_ent):
+                add(rng.uniform(-3e-3, 3e-3, size=(int(rng.integers(2, 7)), 3)), "line")
+            return PathSpec(cls, gseed, np.vstack(V), E)
         for k in range(n_ent):
             off = rng.uniform(-20, 20, size=3)
             if cls == "arcs3d" and k % 2 == 0:
@@ -844,11 +974,29 @@ def gen_path(cls, gseed):
     return PathSpec(cls, gseed, np.vstack(V) * scale, E)
 
 
-VOXEL_CLASSES = ("n1", "n2", "n3", "n5", "n8", "n16_sparse", "n32_sparse", "full", "empty_cells", "mirror_x", "mirror_yz", "sparse_enc", "reloaded")
+VOXEL_CLASSES = ("n1", "n2", "n3", "n5", "n8", "n16_sparse", "n32_sparse", "full", "empty_cells", "mirror_x", "mirror_yz", "sparse_enc", "reloaded",
+                 "box_abb", "box_aab", "box_aba", "box_abc", "box_uniform_extent", "box_uniform_extent_mirror")
+# shape -> pitch factors that make pitch * (shape - 1) the same on the three axes
+_BOX_UNIFORM = [((3, 5, 5), (2.0, 1.0, 1.0)), ((5, 3, 3), (1.0, 2.0, 2.0)), ((2, 4, 7), (6.0, 2.0, 1.0)), ((3, 3, 5), (2.0, 2.0, 1.0)), ((4, 2, 4), (1.0, 3.0, 1.0))]
 
 
 def gen_voxel(cls, gseed):
     rng = np.random.default_rng([stable_seed("voxel", cls), int(gseed)])
+    if cls.startswith("box_"):
+        # non-cubic grids.  One `scale` is all a binvox file stores, so only grids whose first-to-
+        # last-centre extents agree on the three axes are representable ("uniform"); the exporter
+        # documents a ValueError for the others.  Extents of the other classes differ by >= 20 %.
+        pitch = float(rng.choice([0.5, 1.0, 0.25, 2.0, 0.37]))
+        if cls.startswith("box_uniform_extent"):
+            shape, fac = _BOX_UNIFORM[int(rng.integers(len(_BOX_UNIFORM)))]
+            pitch = pitch * np.array(fac)
+        else:
+            a, b, c = (int(x) for x in rng.choice(np.arange(2, 8), size=3, replace=False))
+            shape = {"box_abb": (a, b, b), "box_aab": (a, a, b), "box_aba": (a, b, a), "box_abc": (a, b, c)}[cls]
+        mat = rng.random(shape) < 0.5
+        mat[0, 0, 0] = mat[-1, -1, -1] = True
+        mirror = (int(rng.integers(3)),) if cls.endswith("_mirror") else ()
+        return VoxelSpec(cls, gseed, mat, pitch, rng.uniform(-10, 10, size=3), mirror=mirror)
     n = {"n1": 1, "n2": 2, "n3": 3, "n5": 5, "n8": 8, "n16_sparse": 16, "n32_sparse": 32}.get(cls, int(rng.integers(2, 9)))
     dens = {"n16_sparse": 0.01, "n32_sparse": 0.003, "full": 1.0, "empty_cells": 0.0}.get(cls, float(rng.choice([0.1, 0.3, 0.6])))
     mat = rng.random((n, n, n)) < dens
@@ -869,7 +1017,25 @@ SCENE_CLASSES = (
     "flat_same", "flat_renamed", "instanced", "nested", "nested_similarity", "nested_mirror",
     "nested_affine", "internal_geom", "internal_geom_same", "random", "with_cloud", "with_path",
     "with_empty_geometry",
+    # round 4: node names an exporter / loader may treat specially; a base frame that is not
+    # called "world"; edges within 1e-8 of the identity (small units); drawings in a scene
+    "names_special", "base_renamed", "tiny_offsets", "with_path2d",
 )
+# scenes of Path2D drawings placed by planar transforms: for the formats that export them (svg)
+SVG_SCENE_CLASSES = ("drawings_flat", "drawings_instanced", "drawings_nested")
+_SPECIAL_NAMES = ("cameraman", "a<b&c\"d", "sp ace", "\u00fcn\u00ef", "0", "material_0")
+
+
+def gen_planar(rng, mode):
+    """4x4 matrix acting in the XY plane: translation | rigid | similarity"""
+    M = np.eye(4)
+    if mode != "translation":
+        t = rng.uniform(0.2, 2 * np.pi - 0.2)
+        M[:2, :2] = [[np.cos(t), -np.sin(t)], [np.sin(t), np.cos(t)]]
+    if mode == "similarity":
+        M[:2, :2] *= float(rng.choice([0.5, 2.0, 3.7]))
+    M[:2, 3] = rng.uniform(-30, 30, size=2)
+    return M
 
 
 def _rand_rot(rng):
@@ -915,6 +1081,65 @@ def gen_matrix(rng, mode):
 def gen_scene(cls, gseed):
     rng = np.random.default_rng([stable_seed("scene", cls), int(gseed)])
     geoms = {}
+    if cls in SVG_SCENE_CLASSES:
+        pc = ["polygon", "arc", "mixed", "circle", "polyline"]
+        for i in range(2):
+            geoms["drawing%c" % (65 + i)] = gen_path(pc[int(rng.integers(len(pc)))], int(rng.integers(2**31)))
+        names, nodes = list(geoms), []
+        modes = ["translation", "rigid"] if cls != "drawings_nested" else ["translation", "rigid", "similarity"]
+
+        def pmat():
+            return gen_planar(rng, modes[int(rng.integers(len(modes)))])
+
+        if cls == "drawings_flat":
+            for n in names:
+                nodes.append((n, None, pmat(), n))
+        elif cls == "drawings_instanced":
+            nodes.append((names[0], None, np.eye(4), names[0]))
+            for i in range(int(rng.integers(1, 3))):
+                nodes.append(("copy%d" % i, None, pmat(), names[0]))
+            nodes.append((names[1], None, pmat(), names[1]))
+        else:
+            nodes.append(("sheet", None, pmat(), None))
+            nodes.append((names[0], "sheet", pmat(), names[0]))
+            nodes.append(("detail", "sheet", pmat(), None))
+            nodes.append((names[1], "detail", pmat(), names[1]))
+        return SceneSpec(cls, gseed, geoms, nodes)
+    if cls == "names_special":
+        # leaves under the base frame, node name == geometry name (the layout every format gets
+        # right with ordinary names), plus one group node with a special name above a leaf
+        pick = ["camera_housing"] + [str(x) for x in rng.choice(_SPECIAL_NAMES, size=3, replace=False)]
+        nodes = []
+        for n in pick + ["plain", "below"]:
+            geoms[n] = gen_mesh(["soup_unit", "soup_int", "single_face"][int(rng.integers(3))], "none", int(rng.integers(2**31)))
+        for n in pick + ["plain"]:
+            nodes.append((n, None, gen_matrix(rng, ["rigid", "translation"][int(rng.integers(2))]), n))
+        nodes.append(("camera_rig", None, gen_matrix(rng, "rigid"), None))
+        nodes.append(("below", "camera_rig", gen_matrix(rng, "translation"), "below"))
+        return SceneSpec(cls, gseed, geoms, nodes)
+    if cls == "base_renamed":
+        # the base frame is called "base"; one of the nodes is called like the default base frame
+        nodes = []
+        for n in ("world", "arm"):
+            geoms[n] = gen_mesh(["soup_unit", "soup_int"][int(rng.integers(2))], "none", int(rng.integers(2**31)))
+            nodes.append((n, None, gen_matrix(rng, ["rigid", "translation"][int(rng.integers(2))]), n))
+        return SceneSpec(cls, gseed, geoms, nodes, base="base")
+    if cls == "tiny_offsets":
+        # (a) a scene modelled in small units: parts of size 1e-9 placed 1e-9 .. 9e-9 apart;
+        # (b) a group turned by a few 1e-9 rad whose child is 1e6 away (moves by ~ 4e-3).
+        # Both edges are within 1e-8 of the identity in every entry without being the identity.
+        for n in ("left", "right"):
+            geoms[n] = gen_mesh("mag_1e-9", "none", int(rng.integers(2**31)))
+        geoms["far"] = gen_mesh("mag_1e3", "none", int(rng.integers(2**31)))
+        T = np.eye(4)
+        T[:3, 3] = rng.uniform(2e-9, 9e-9, size=3) * rng.choice([-1.0, 1.0], size=3)
+        a = float(rng.uniform(3e-9, 6e-9)) * float(rng.choice([-1.0, 1.0]))
+        R = np.eye(4)
+        R[:2, :2] = [[np.cos(a), -np.sin(a)], [np.sin(a), np.cos(a)]]
+        F = np.eye(4)
+        F[:3, 3] = [float(rng.uniform(1e6, 2e6)), 0.0, 0.0]
+        nodes = [("left", None, np.eye(4), "left"), ("right", None, T, "right"), ("rig", None, R, None), ("far", "rig", F, "far")]
+        return SceneSpec(cls, gseed, geoms, nodes)
     ng = 2 if cls != "random" else int(rng.integers(1, 4))
     mesh_cls = ["soup_unit", "soup_int", "seam", "single_face"]
     for i in range(ng):
@@ -992,9 +1217,9 @@ def gen_scene(cls, gseed):
         nodes.append(("hollownode", None, gen_matrix(rng, "translation"), "hollow"))
         nodes.append((names[1], None, mat(), names[1]))
         nodes.append(("second_hollow", names[0], gen_matrix(rng, "translation"), "hollow"))
-    elif cls == "with_path":
-        pcls = ["lines3d_one", "lines3d_multi"][int(rng.integers(2))]
-        geoms["path"] = gen_path(pcls, int(rng.integers(2**31)))
+    elif cls in ("with_path", "with_path2d"):
+        pcls = ["lines3d_one", "lines3d_multi"] if cls == "with_path" else ["polygon", "polyline"]
+        geoms["path"] = gen_path(pcls[int(rng.integers(2))], int(rng.integers(2**31)))
         nodes.append((names[0], None, mat(), names[0]))
         nodes.append(("pathnode", None, mat(), "path"))
     else:
@@ -1025,11 +1250,24 @@ def make_spec(gen):
 
 
 def _ply_q(eo):
-    return q_ply_ascii if eo.get("encoding") == "ascii" else q_f32
+    # both encodings declare `property float x`: what the format stores is a float32.  (Until
+    # round 4 the ascii encoding was allowed the exporter's own '{:.8f}' grid, see _ply_loose.)
+    return q_f32
+
+
+def _ply_loose(eo):
+    """
+    Second, wider quantiser used ONLY to name a symptom: a primitive that is not found within the
+    format's precision but is found within this one is 'coords_beyond_precision' rather than
+    'missing' (the absolute 1e-8 grid the ascii PLY writer prints on).
+    """
+    return q_ply_ascii if eo.get("encoding") == "ascii" else None
 
 
 def _ply_colors(eo, lo):
-    return {"vertex_rgba"} if eo.get("encoding") == "ascii" else {"vertex_rgba", "face_rgba"}
+    # PLY carries per-face `red green blue alpha` in either encoding (the ascii reader loads
+    # them); until round 4 the ascii writer's silent omission was taken for the format's limit
+    return {"vertex_rgba", "face_rgba"}
 
 
 def _obj_colors(eo, lo):
@@ -1076,7 +1314,8 @@ MESH_FORMATS = {
         "eopts": [{}, {"batch_size": 1}, {"batch_size": 7}, {"compression": zipfile.ZIP_STORED}, {"compresslevel": 9}],
         "lopts": [{}, {"postprocess": False}],
     },
-    "dae": {"q": lambda eo: q_sig(7, f32=True), "colors": lambda eo, lo: set(), "eopts": [{}], "lopts": [{}], "indexed": False},
+    # dae: export_collada writes a COLOR source with one RGB triple per vertex and load_collada parses it
+    "dae": {"q": lambda eo: q_sig(7, f32=True), "colors": lambda eo, lo: {"vertex_rgb"}, "eopts": [{}], "lopts": [{}], "indexed": False},
     "dict": {"q": lambda eo: q_exact, "colors": lambda eo, lo: {"vertex_rgba", "face_rgba"}, "eopts": [{}], "lopts": [{}], "indexed": True},
     "dict64": {"q": lambda eo: q_exact, "colors": lambda eo, lo: {"vertex_rgba", "face_rgba"}, "eopts": [{}], "lopts": [{}], "indexed": True},
 }
@@ -1106,17 +1345,22 @@ SCENE_FORMATS = {
     "glb": {"graph": True, "q": lambda eo: q_f32, "eopts": [{}, {"include_normals": True}], "paths": True, "clouds": True},
     "gltf": {"graph": True, "q": lambda eo: q_f32, "eopts": [{}, {"merge_buffers": True}, {"embed_buffers": True}], "paths": True, "clouds": True},
     "3mf": {"graph": True, "q": lambda eo: q_exact, "eopts": [{}, {"batch_size": 5}]},
-    "dict": {"graph": True, "q": lambda eo: q_exact, "eopts": [{}]},
+    # dict: scene_to_dict stores every geometry as geometry.export('dict'): paths have one
+    # (path.exchange.export.export_dict); there is no 'dict64' exporter for paths.
+    "dict": {"graph": True, "q": lambda eo: q_exact, "eopts": [{}], "paths": True},
     "dict64": {"graph": True, "q": lambda eo: q_exact, "eopts": [{}]},
     "obj": {"graph": False, "q": lambda eo: q_dec(eo.get("digits", 8)), "eopts": [{}, {"digits": 11}]},
-    "ply": {"graph": False, "q": _ply_q, "eopts": [{}, {"encoding": "ascii"}]},
+    "ply": {"graph": False, "q": _ply_q, "q_loose": _ply_loose, "eopts": [{}, {"encoding": "ascii"}]},
     "stl": {"graph": False, "q": lambda eo: q_f32, "eopts": [{}]},
+    # svg: export_scene hands the scene to svg_io.export_svg, which has a Scene branch: Path2D
+    # geometries only (judge_scene_svg; scene classes SVG_SCENE_CLASSES)
+    "svg": {"graph": False, "svg": True, "q": None, "eopts": [{}, {"digits": 8}]},
 }
 
 PATH_FORMATS = {
     "dxf": {"dims": (2,), "eopts": [{}], "arcs": True},
     "svg": {"dims": (2,), "eopts": [{}, {"digits": 8}, {"digits": 5}], "arcs": True},
-    "dict": {"dims": (2, 3), "eopts": [{}], "arcs": True},
+    "dict": {"dims": (2, 3), "eopts": [{}], "arcs": True, "curves": True},
     "ply": {"dims": (3,), "eopts": [{}, {"encoding": "ascii"}], "arcs": False},
 }
 
@@ -1349,10 +1593,9 @@ def judge_mesh(spec, fmt, eo, lo, route):
         try:
             payload = do_export(obj, fmt, eo, route, tmp)
         except LibraryError as e:
-            if spec.empty:
-                res.refused = "empty:" + e.sym
-            else:
-                res.add(e.sym, {"error": str(e)})
+            # "empty" is one of the geometries the property quantifies over: an exporter that
+            # raises on it is judged like on any other mesh
+            res.add(e.sym, {"error": str(e)})
             return res
         changed = spec.intact(obj) or (None if _snapshot(obj) == snap else "hash")
         if changed:
@@ -1361,10 +1604,7 @@ def judge_mesh(spec, fmt, eo, lo, route):
         try:
             got = do_load(fmt, payload, lroute, lo)
         except LibraryError as e:
-            if spec.empty:
-                res.refused = "empty:" + e.sym
-            else:
-                res.add(e.sym, {"error": str(e)})
+            res.add(e.sym, {"error": str(e)})
             return res
         inst, loops = instances_of(got)
         res.info["loaded_type"] = type(got).__name__
@@ -1404,8 +1644,25 @@ def judge_mesh(spec, fmt, eo, lo, route):
                 from scipy.spatial import cKDTree
 
                 near_coincident = len(cKDTree(np.asarray(spec.V, dtype=np.float64)).query_pairs(2e-8)) > 0
+        if fmt == "dae":
+            # load_collada does not forward `process`: every reloaded DAE mesh is built with the
+            # default process=True, which merges vertices closer than tol.merge = 1e-8 (C07's
+            # business, not a round trip question).  Only vertices that HAVE such a neighbour get
+            # the merge distance as tolerance and their colours are not judged.
+            Vd = np.asarray(spec.V, dtype=np.float64)
+            close = np.zeros(len(Vd), dtype=bool)
+            if 1 < len(Vd) < 5000:
+                from scipy.spatial import cKDTree
+
+                pairs = cKDTree(Vd).query_pairs(2e-8, output_type="ndarray")
+                close[pairs.reshape(-1)] = True
+            if close.any():
+                tol = np.where(close[spec.F][:, :, None], np.maximum(tol, 2e-8), tol)
+                near_coincident = forced_process = True
+                res.info["dae_vertices_within_merge_distance"] = int(close.sum())
         if not res.coords(E, R, tol):
-            res.add(_classify_tri_mismatch(E, R, tol), dict(res.info.get("worst", {})))
+            # colours / attributes are no feature of a coordinate symptom
+            res.add(_classify_tri_mismatch(E, R, tol), dict(res.info.get("worst", {})), feat="index=gt65535" if spec.big else "")
         res.info["vertex_count"] = (len(spec.V), len(RV))
         res.info["exact_f32"] = bool(np.array_equal(R, E.astype(np.float32).astype(np.float64)))
         # ---- colours
@@ -1416,10 +1673,10 @@ def judge_mesh(spec, fmt, eo, lo, route):
             ok = kind == "face" and np.array_equal(np.asarray(g.visual.face_colors), spec.fc)
             res.compared += spec.fc.size
             if not ok:
-                res.add("face_colors_differ", {"kind": kind})
+                res.add("face_colors_differ", {"kind": kind}, feat="colors=face")
         if spec.vc is not None and ({"vertex_rgba", "vertex_rgb"} & carried):
             if forced_process and near_coincident:
-                res.info["skipped_colors"] = "dict64 forces process=True: coincident vertices are merged"
+                res.info["skipped_colors"] = "%s forces process=True: coincident vertices are merged" % fmt
             else:
                 ch = 4 if "vertex_rgba" in carried else 3
                 ok = kind == "vertex" and len(np.asarray(g.visual.vertex_colors)) == len(RV)
@@ -1428,7 +1685,7 @@ def judge_mesh(spec, fmt, eo, lo, route):
                     ok = np.array_equal(gotc, spec.vc[spec.F][..., :ch])
                 res.compared += spec.vc.size
                 if not ok:
-                    res.add("vertex_colors_differ", {"kind": kind, "channels": ch})
+                    res.add("vertex_colors_differ", {"kind": kind, "channels": ch}, feat="colors=vertex")
         return res
     finally:
         if tmp:
@@ -1491,7 +1748,7 @@ def judge_cloud(spec, fmt, eo, lo, route):
                 _, idx = cKDTree(R).query(spec.P)
                 if (np.abs(R[idx] - spec.P) <= tol).all() and len(np.unique(idx)) == len(R):
                     sym = "points_reordered"
-            res.add(sym, dict(res.info.get("worst", {})))
+            res.add(sym, dict(res.info.get("worst", {})), feat="")
         carried = F["colors"](eo, lo)
         if spec.C is not None and carried:
             ch = 4 if "rgba" in carried else 3
@@ -1542,7 +1799,10 @@ def _match_rows(E, tolE, R):
 def judge_scene(spec, fmt, eo, lo, route):
     res = Result()
     F = SCENE_FORMATS[fmt]
+    if F.get("svg"):
+        return judge_scene_svg(spec, fmt, eo, lo, route)
     Q = F["q"](eo)
+    Qloose = F["q_loose"](eo) if "q_loose" in F else None
     tmp = tempfile.mkdtemp(prefix="c08-") if route == "file" else None
     try:
         obj = spec.build()
@@ -1590,40 +1850,50 @@ def judge_scene(spec, fmt, eo, lo, route):
         used_T = np.zeros(len(RT), dtype=bool)
         used_P = np.zeros(len(RP), dtype=bool)
         exp_segs = []
+        missing_faces = 0
         # ---- expected instances
         for node, gname, W, feat in spec.instances():
             gs = spec.geoms[gname]
             if gs.kind == "mesh":
                 X = gs.V
-                if F["graph"]:
-                    tolv = world_tol(W, Q(X), X)
-                    Wv = apply(W, X)
-                else:
-                    Wv = apply(W, X)
-                    tolv = Q(Wv) + 1e-12 * (np.abs(X) @ np.abs(W[:3, :3]).T + np.abs(W[:3, 3]))
-                E = Wv[gs.F].reshape(-1, 9)
-                T = tolv[gs.F].reshape(-1, 9)
-                variants = [(E, T)]
-                if not F["graph"] and np.linalg.det(W[:3, :3]) < 0:
-                    # Scene.dump() re-winds mirrored instances: either corner order is the same triangle
-                    variants.append((Wv[gs.F][:, ::-1].reshape(-1, 9), tolv[gs.F][:, ::-1].reshape(-1, 9)))
+                Wv = apply(W, X)
                 found = False
-                avail = RT[~used_T]
-                amap = np.flatnonzero(~used_T)
-                for Ev, T in variants:
-                    idx, _ = _match_rows(Ev, T, avail)
-                    if (idx >= 0).all():
-                        used_T[amap[idx]] = True
-                        d = np.abs(avail[idx] - Ev)
-                        res.compared += d.size
-                        res.err = max(res.err, float(d.max()) if d.size else 0.0)
-                        with np.errstate(divide="ignore", invalid="ignore"):
-                            rr = np.where(T > 0, d / np.where(T > 0, T, 1), 0.0)
-                        res.ratio = max(res.ratio, float(rr.max()) if rr.size else 0.0)
-                        res.allowed = max(res.allowed, float(T.max()) if T.size else 0.0)
-                        found = True
+                for Qi in (Q, Qloose):
+                    if Qi is None:
+                        continue
+                    if F["graph"]:
+                        tolv = world_tol(W, Qi(X), X)
+                    else:
+                        tolv = Qi(Wv) + 1e-12 * (np.abs(X) @ np.abs(W[:3, :3]).T + np.abs(W[:3, 3]))
+                    E = Wv[gs.F].reshape(-1, 9)
+                    T = tolv[gs.F].reshape(-1, 9)
+                    variants = [(E, T)]
+                    if not F["graph"] and np.linalg.det(W[:3, :3]) < 0:
+                        # Scene.dump() re-winds mirrored instances: either corner order is the same triangle
+                        variants.append((Wv[gs.F][:, ::-1].reshape(-1, 9), tolv[gs.F][:, ::-1].reshape(-1, 9)))
+                    avail = RT[~used_T]
+                    amap = np.flatnonzero(~used_T)
+                    for Ev, T in variants:
+                        idx, _ = _match_rows(Ev, T, avail)
+                        if (idx >= 0).all():
+                            used_T[amap[idx]] = True
+                            d = np.abs(avail[idx] - Ev)
+                            res.compared += d.size
+                            res.err = max(res.err, float(d.max()) if d.size else 0.0)
+                            if Qi is Q:
+                                with np.errstate(divide="ignore", invalid="ignore"):
+                                    rr = np.where(T > 0, d / np.where(T > 0, T, 1), 0.0)
+                                res.ratio = max(res.ratio, float(rr.max()) if rr.size else 0.0)
+                                res.allowed = max(res.allowed, float(T.max()) if T.size else 0.0)
+                            found = True
+                            break
+                    if found:
+                        if Qi is not Q:
+                            # the instance is there, but only on the wider grid (see _ply_loose)
+                            res.add("coords_beyond_precision", {"node": node, "geometry": gname, "max_err": res.err}, feat="geom=mesh")
                         break
                 if not found:
+                    missing_faces += len(gs.F)
                     res.add("instance_missing", {"node": node, "geometry": gname, "faces": len(gs.F)}, feat="geom=mesh " + feat)
             elif gs.kind == "pointcloud":
                 if not F.get("clouds"):
@@ -1654,14 +1924,17 @@ def judge_scene(spec, fmt, eo, lo, route):
             missing, extra, worst = segs_match(ES, RS, tol_fn)
             res.compared += ES.size
             res.err = max(res.err, worst)
-            pf = "geom=path3d " + exp_segs[0][3].entity_feature()
+            pf = "geom=%s %s" % (exp_segs[0][3].kind, exp_segs[0][3].entity_feature())
             if missing:
                 res.add("segments_missing", {"missing": missing, "expected": len(ES), "got": len(RS)}, feat=pf)
             if extra:
                 res.add("unexpected_segments", {"extra": extra, "expected": len(ES), "got": len(RS)}, feat=pf)
-        if (~used_T).any():
+        collides = any(f == "node=collides" for _, _, _, f in spec.instances())
+        if (~used_T).any() and (collides or int((~used_T).sum()) > missing_faces):
+            # (reloaded triangles that the instances reported missing account for are those
+            # instances, displaced: one event, reported once as instance_missing)
             res.add("unexpected_triangles", {"extra": int((~used_T).sum()), "reloaded": len(RT)},
-                    feat="node=collides" if any(f == "node=collides" for _, _, _, f in spec.instances()) else None)
+                    feat="node=collides" if collides else None)
         if F.get("clouds") and (~used_P).any():
             res.add("unexpected_points", {"extra": int((~used_P).sum())})
         return res
@@ -1670,9 +1943,14 @@ def judge_scene(spec, fmt, eo, lo, route):
             shutil.rmtree(tmp, ignore_errors=True)
 
 
-def _path_primitives(p):
-    """segments (n,2,3) and arc descriptors of a reloaded path, plus unknown entity types."""
+def _path_primitives(p, M=None):
+    """
+    segments (n,2,3) and arc descriptors of a reloaded path (placed by the 4x4 matrix M of its
+    node when that is not the identity), plus unknown entity types.
+    """
     V = np.asarray(p.vertices, dtype=np.float64)
+    if M is not None and V.ndim == 2 and not np.array_equal(M, I4):
+        V = apply(M, V)[:, : V.shape[1]]  # (a drawing is placed by the planar part)
     segs, arcs, other = [], [], []
     for e in p.entities:
         name = type(e).__name__
@@ -1687,6 +1965,75 @@ def _path_primitives(p):
         else:
             other.append(name)
     return _segs_array(segs, V.shape[1] if V.ndim == 2 else 2), arcs, other
+
+
+def _compare_paths(res, ES, EA, S, A, other, fmt, eo, scale, feat=None):
+    """
+    Expected segments ES / arc descriptors EA against the reloaded S / A through the quantiser of
+    a path format; symptoms are added to `res` (with the feature override `feat`).
+    """
+    if other:
+        res.add("unexpected_entity_type", {"types": sorted(set(other))}, feat=feat)
+    qf, q_loose, arc_tol, circle_tol = _path_tols(fmt, eo, scale)
+    _compare_paths_with(res, ES, EA, S, A, qf, q_loose, arc_tol, circle_tol, feat)
+
+
+def _path_tols(fmt, eo, scale):
+    """(segment quantiser, wider naming quantiser or None, arc tolerance or None, circle tolerance)"""
+    circle_tol = q_loose = None
+    if fmt == "dxf":
+        qf = q_sig(12)
+        arc_tol = 1e-9 * max(scale, 1e-3)
+    elif fmt == "svg":
+        D = eo.get("digits") or 13
+        qf = lambda x: 0.5 * 10.0 ** (-D) * (1 + 1e-9) + 8 * ulp64(x) + 8 * ulp64(scale)  # noqa
+        arc_tol = 1e-9 * max(scale, 1e-3) + 20 * 10.0 ** (-D)
+        # a circle is written as two exact half turns with rounded radius / diameter: the
+        # centre across the chord is only determined to sqrt(2 r 10^-D) by the file itself
+        circle_tol = arc_tol + 4 * np.sqrt(2 * scale * 10.0 ** (-D))
+    elif fmt == "ply":
+        qf = _ply_q(eo)
+        q_loose = _ply_loose(eo)
+        arc_tol = None
+    else:
+        qf = q_generic
+        arc_tol = 1e-5 * scale
+    return qf, q_loose, arc_tol, circle_tol
+
+
+def _drop_tiny(S, qf):
+    """without the segments of zero length up to the format's precision (e.g. the closing `Z` of an SVG circle)"""
+    if len(S) == 0:
+        return S, 0
+    tiny = (np.abs(S[:, 0] - S[:, 1]) <= 2 * qf(S[:, 0])).all(axis=1)
+    return S[~tiny], int(tiny.sum())
+
+
+def _compare_paths_with(res, ES, EA, S, A, qf, q_loose, arc_tol, circle_tol, feat):
+    S, n_tiny = _drop_tiny(S, qf)
+    res.info["degenerate_segments_ignored"] = n_tiny
+    missing, extra, worst = segs_match(ES, S, qf)
+    if (missing or extra) and q_loose is not None:
+        m2, x2, w2 = segs_match(ES, S, q_loose)
+        if not m2 and not x2:
+            # every segment is there, but only on the wider grid (see _ply_loose)
+            res.add("coords_beyond_precision", {"max_err": w2, "allowed": float(qf(ES).max()) if ES.size else 0.0}, feat=feat)
+            missing = extra = 0
+            worst = w2
+    res.compared += ES.size
+    res.err = max(res.err, worst)
+    res.allowed = max(res.allowed, float(qf(ES).max()) if ES.size else 0.0)
+    if missing:
+        res.add("segments_missing", {"missing": missing, "expected": len(ES), "got": len(S)}, feat=feat)
+    if extra:
+        res.add("unexpected_segments", {"extra": extra, "expected": len(ES), "got": len(S)}, feat=feat)
+    if arc_tol is not None:
+        am, ax = arcs_match(EA, A, arc_tol, circle_tol if circle_tol is not None else arc_tol)
+        res.compared += 9 * len(EA)
+        if am:
+            res.add("arcs_missing", {"missing": am, "expected": len(EA), "got": len(A)}, feat=feat)
+        if ax:
+            res.add("unexpected_arcs", {"extra": ax, "expected": len(EA), "got": len(A)}, feat=feat)
 
 
 def judge_path(spec, fmt, eo, lo, route):
@@ -1744,47 +2091,93 @@ def judge_path(spec, fmt, eo, lo, route):
             if bad:
                 res.add("entities_differ:" + bad)
             return res
-        S, A, other = _path_primitives(g)
-        if other:
-            res.add("unexpected_entity_type", {"types": sorted(set(other))})
+        S, A, other = _path_primitives(g, M)
         ES, EA = spec.segments(), spec.arcs()
         scale = float(np.abs(spec.V).max()) if spec.V.size else 1.0
-        if fmt == "dxf":
-            qf = q_sig(12)
-            arc_tol = 1e-9 * max(scale, 1e-3)
-        elif fmt == "svg":
-            D = eo.get("digits") or 13
-            qf = lambda x: 0.5 * 10.0 ** (-D) * (1 + 1e-9) + 8 * ulp64(x) + 8 * ulp64(scale)  # noqa
-            arc_tol = 1e-9 * max(scale, 1e-3) + 20 * 10.0 ** (-D)
-            # a circle is written as two exact half turns with rounded radius / diameter: the
-            # centre across the chord is only determined to sqrt(2 r 10^-D) by the file itself
-            circle_tol = arc_tol + 4 * np.sqrt(2 * scale * 10.0 ** (-D))
-        elif fmt == "ply":
-            qf = _ply_q(eo)
-            arc_tol = None
-        else:
-            qf = q_generic
-            arc_tol = 1e-5 * scale
-        if len(S):
-            # zero length up to the format's precision (e.g. the closing `Z` of an SVG circle)
-            tiny = (np.abs(S[:, 0] - S[:, 1]) <= 2 * qf(S[:, 0])).all(axis=1)
-            res.info["degenerate_segments_ignored"] = int(tiny.sum())
-            S = S[~tiny]
-        missing, extra, worst = segs_match(ES, S, qf)
-        res.compared += ES.size
-        res.err = max(res.err, worst)
-        res.allowed = max(res.allowed, float(qf(ES).max()) if ES.size else 0.0)
-        if missing:
-            res.add("segments_missing", {"missing": missing, "expected": len(ES), "got": len(S)})
-        if extra:
-            res.add("unexpected_segments", {"extra": extra, "expected": len(ES), "got": len(S)})
-        if arc_tol is not None:
-            am, ax = arcs_match(EA, A, arc_tol, circle_tol if fmt == "svg" else arc_tol)
-            res.compared += 9 * len(EA)
-            if am:
-                res.add("arcs_missing", {"missing": am, "expected": len(EA), "got": len(A)})
-            if ax:
-                res.add("unexpected_arcs", {"extra": ax, "expected": len(EA), "got": len(A)})
+        _compare_paths(res, ES, EA, S, A, other, fmt, eo, scale)
+        return res
+    finally:
+        if tmp:
+            shutil.rmtree(tmp, ignore_errors=True)
+
+
+def judge_scene_svg(spec, fmt, eo, lo, route):
+    """
+    A scene of Path2D drawings -> svg -> whatever comes back.  Expected: every instance of every
+    drawing, placed by the product of the spec's own (planar) matrices, as segments and arcs in
+    the sheet; reloaded: all paths of the reloaded object, placed by an own walk of its graph.
+    """
+    res = Result()
+    tmp = tempfile.mkdtemp(prefix="c08-") if route == "file" else None
+    try:
+        obj = spec.build()
+        if spec.intact(obj):
+            res.refused = "constructor_changed_input:" + spec.intact(obj)
+            return res
+        snap = [g.__hash__() for g in obj.geometry.values()] + [obj.graph.__hash__()]
+        try:
+            payload = do_export(obj, fmt, eo, route, tmp)
+        except LibraryError as e:
+            res.add(e.sym, {"error": str(e)})
+            return res
+        changed = spec.intact(obj)
+        if not changed and [g.__hash__() for g in obj.geometry.values()] + [obj.graph.__hash__()] != snap:
+            changed = "hash"
+        if changed:
+            res.add("export_modified_input:" + changed)
+        try:
+            got = do_load(fmt, payload, route, lo)
+        except LibraryError as e:
+            res.add(e.sym, {"error": str(e)})
+            return res
+        inst, _ = instances_of(got)
+        res.info["loaded_type"] = type(got).__name__
+        res.info["loaded_instances"] = len(inst)
+        S, A, other = [], [], []
+        for g, M in inst:
+            if not hasattr(g, "entities"):
+                continue
+            s1, a1, o1 = _path_primitives(g, M)
+            S.append(s1)
+            A.extend(a1)
+            other.extend(o1)
+        S = np.vstack(S) if S else np.zeros((0, 2, 3))
+        if other:
+            res.add("unexpected_entity_type", {"types": sorted(set(other))}, feat="geom=path2d")
+        placed = []
+        for node, gname, W, feat in spec.instances():
+            gs = spec.geoms[gname]
+            placed.append((node, gname, feat, PathSpec(gs.cls, gs.gseed, apply(W, gs.V)[:, :2], gs.entities)))
+        scale = max([1.0] + [float(np.abs(p.V).max()) for _, _, _, p in placed])
+        qf, _, arc_tol, circle_tol = _path_tols(fmt, eo, scale)
+        S, n_tiny = _drop_tiny(S, qf)
+        res.info["degenerate_segments_ignored"] = n_tiny
+        # instances never coincide (random planar placements), so each one is looked up among
+        # ALL reloaded primitives; what no instance accounts for is judged at the end
+        lost_segs = lost_arcs = 0
+        for node, gname, feat, pl in placed:
+            ES, EA = pl.segments(), pl.arcs()
+            missing, _, worst = segs_match(ES, S, qf)
+            am, _ = arcs_match(EA, A, arc_tol, circle_tol if circle_tol is not None else arc_tol)
+            res.compared += ES.size + 9 * len(EA)
+            if missing or am:
+                lost_segs += len(ES)
+                lost_arcs += len(EA)
+                res.add("instance_missing", {"node": node, "geometry": gname, "segments_missing": missing, "arcs_missing": am},
+                        feat="geom=path2d " + feat)
+            else:
+                res.err = max(res.err, worst)
+                res.allowed = max(res.allowed, float(qf(ES).max()) if ES.size else 0.0)
+        ES = np.vstack([pl.segments() for _, _, _, pl in placed]) if placed else np.zeros((0, 2, 3))
+        EA = [a for _, _, _, pl in placed for a in pl.arcs()]
+        _, extra, _ = segs_match(ES, S, qf)
+        _, ax = arcs_match(EA, A, arc_tol, circle_tol if circle_tol is not None else arc_tol)
+        # (reloaded primitives that the instances reported missing account for are those
+        # instances, displaced: one event, reported once)
+        if extra > lost_segs:
+            res.add("unexpected_segments", {"extra": extra, "expected": len(ES), "got": len(S)}, feat="geom=path2d")
+        if ax > 2 * lost_arcs:  # (a circle comes back as two half turns)
+            res.add("unexpected_arcs", {"extra": ax, "expected": len(EA), "got": len(A)}, feat="geom=path2d")
         return res
     finally:
         if tmp:
@@ -1797,12 +2190,21 @@ def judge_voxel(spec, fmt, eo, lo, route):
     if spec.intact(obj):
         res.refused = "constructor_changed_input:" + spec.intact(obj)
         return res
-    n = spec.mat.shape[0]
+    n = min(spec.mat.shape)
+    representable = spec.extent_pattern in (None, "uniform")
     try:
         data = obj.export(file_type=fmt, **eo)
     except Exception as e:  # noqa
+        if not representable and isinstance(e, ValueError) and "uniform scale" in str(e):
+            # the format stores ONE scale: the exporter's documented, loud refusal of a grid
+            # whose extents differ (export_binvox: "Can only export binvox with uniform scale")
+            res.refused = "voxel_extent_not_uniform:refused_by_exporter"
+            return res
         res.add(LibraryError("export", e).sym, {"error": str(e)[:200]})
         return res
+    if not representable:
+        # it was written all the same: the cells have to be where they were
+        res.info["nonuniform_extent_exported"] = True
     changed = spec.intact(obj)
     if changed:
         res.add("export_modified_input:" + changed)
@@ -1848,11 +2250,11 @@ def judge_voxel(spec, fmt, eo, lo, route):
         if spec.mirror:
             res.add("cells_differ", {"filled": [len(P0), len(P1)]})
         return res
-    scale = np.abs(spec.origin).max() + abs(spec.pitch) * n
+    scale = np.abs(spec.origin).max() + float((spec.pitchv * np.array(spec.mat.shape)).max())
     tol = np.full(P0.shape, 8 * np.spacing(scale))
     if len(P0):
-        k0 = np.lexsort(np.round(P0 / spec.pitch * 4).T)
-        k1 = np.lexsort(np.round(P1 / spec.pitch * 4).T)
+        k0 = np.lexsort(np.round(P0 / spec.pitchv * 4).T)
+        k1 = np.lexsort(np.round(P1 / spec.pitchv * 4).T)
         if not res.coords(P0[k0], P1[k1], tol):
             res.add("cells_misplaced", dict(res.info.get("worst", {})))
     else:
@@ -2044,8 +2446,29 @@ def registries(run):
         run.note("formats_judged_with_generic_quantiser", unknown)
     run.note("mesh_formats", mesh_fmts)
     run.note("path_formats", path_fmts)
-    return {"mesh": mesh_fmts, "path": path_fmts, "voxel": vox_fmts,
-            "scene": [f for f in SCENE_FORMATS if f in mesh_exp and (f in mesh_load or f in special_load)]}
+    scene_fmts = [f for f in SCENE_FORMATS if f in mesh_exp and (f in mesh_load or f in special_load)]
+    if "svg" in path_exp and "svg" in path_load:
+        scene_fmts.append("svg")  # export_scene -> svg_io.export_svg (Scene branch)
+    return {"mesh": mesh_fmts, "path": path_fmts, "voxel": vox_fmts, "scene": scene_fmts}
+
+
+def scene_classes_for(fmt):
+    """scene classes a scene format is asked to carry"""
+    F = SCENE_FORMATS[fmt]
+    if F.get("svg"):
+        return list(SVG_SCENE_CLASSES)
+    out = []
+    for c in SCENE_CLASSES:
+        if c == "with_cloud" and not F.get("clouds"):
+            continue
+        if c in ("with_path", "with_path2d") and not F.get("paths"):
+            continue
+        if c == "tiny_offsets" and fmt == "dict64":
+            # trimesh.load(<dict64>) cannot switch processing off: a part of size 1e-9 is merged
+            # into one vertex (tol.merge = 1e-8) and nothing is left to compare
+            continue
+        out.append(c)
+    return out
 
 
 def enumerated_jobs(reg, tier):
@@ -2084,7 +2507,7 @@ def enumerated_jobs(reg, tier):
                     mesh(cls, colors, k, fmt, route=route)
         # D: magnitudes and odd classes
         for fmt in mesh_fmts:
-            for cls in ("mag_1e-3", "mag_1e3", "mag_1e6", "unreferenced", "attrs"):
+            for cls in ("mag_1e-3", "mag_1e3", "mag_1e6", "unreferenced", "attrs", "mag_1e-9"):
                 mesh(cls, "none", k, fmt)
             mesh("mag_1e6", "vertex", k, fmt)
     # E: index width
@@ -2098,9 +2521,13 @@ def enumerated_jobs(reg, tier):
     big_full = [f for f in mesh_fmts if f in ("stl", "ply", "glb")] if tier == "quick" else [f for f in mesh_fmts if f not in ("dae",)]
     for fmt in big_full:
         mesh("big_grid", "face" if fmt == "ply" else "none", 0, fmt)
-    # F: empty
+    # F: empty, and vertices without a face, with every export option
     for fmt in mesh_fmts:
-        mesh("empty", "none", 0, fmt)
+        for eo in MESH_FORMATS.get(fmt, FMT_GENERIC)["eopts"]:
+            if eo.get("_prep") or eo.get("vertex_normal") or eo.get("include_normals"):
+                continue  # (normals of nothing: not a geometry question)
+            mesh("empty", "none", 0, fmt, eo)
+            mesh("points_only", "none", 0, fmt, eo)
 
     # ---- point clouds: every mesh exporter sees a cloud once (unsupported ones are counted)
     def cloud(cls, colors, k, fmt, eo=None, lo=None, route="load"):
@@ -2127,13 +2554,14 @@ def enumerated_jobs(reg, tier):
     for k in range(reps * 2):
         for fmt in reg["scene"]:
             F = SCENE_FORMATS[fmt]
-            for cls in SCENE_CLASSES:
-                if cls == "with_cloud" and not F.get("clouds"):
-                    continue
-                if cls == "with_path" and not F.get("paths"):
-                    continue
+            for cls in scene_classes_for(fmt):
                 for eo in F["eopts"] if k == 0 else F["eopts"][:1]:
                     scene(cls, k, fmt, eo)
+            if F.get("svg"):
+                if k == 0:
+                    scene("drawings_instanced", k, fmt, route="load_path")
+                    scene("drawings_nested", k, fmt, route="file")
+                continue
             if k == 0:
                 for route in ("load_scene", "load_mesh") + (("file",) if fmt not in ("dict", "dict64") else ()):
                     scene("nested_similarity", k, fmt, route=route)
@@ -2152,6 +2580,8 @@ def enumerated_jobs(reg, tier):
                 classes += list(PATH2D_CLASSES)
             if 3 in F["dims"]:
                 classes += [c for c in PATH3D_CLASSES if F["arcs"] or c != "arcs3d"]
+            if F.get("curves"):
+                classes += list(PATH2D_CURVE_CLASSES) + list(PATH3D_CURVE_CLASSES)
             for cls in classes:
                 for eo in F["eopts"] if k == 0 else F["eopts"][:1]:
                     path(cls, k, fmt, eo)
@@ -2200,7 +2630,7 @@ def random_job(run, reg):
     if kind == "mesh":
         fmt = r.choice([f for f in reg["mesh"] if f != "xyz"])
         F = MESH_FORMATS.get(fmt, FMT_GENERIC)
-        cls = r.choice([c for c in MESH_CLASSES if not c.startswith("big") and c != "empty"])
+        cls = r.choice([c for c in MESH_CLASSES if not c.startswith("big") and c not in ("empty", "points_only")])
         colors = r.choice(["none", "face", "vertex"])
         eo = dict(r.choice(F["eopts"]))
         lo = dict(r.choice(F["lopts"]))
@@ -2220,12 +2650,16 @@ def random_job(run, reg):
     if kind == "scene":
         fmt = r.choice(reg["scene"])
         F = SCENE_FORMATS[fmt]
-        cls = r.choice([c for c in SCENE_CLASSES if (c != "with_cloud" or F.get("clouds")) and (c != "with_path" or F.get("paths"))] + ["random"] * 4)
+        cls = r.choice(scene_classes_for(fmt) + ([] if F.get("svg") else ["random"] * 4))
+        if F.get("svg") and r.random() < 0.5:
+            return {"kind": "scene", "cls": cls, "gseed": gseed}, fmt, {"digits": r.randint(6, 14)}, {}, r.choice(["load", "load_path"])
         return {"kind": "scene", "cls": cls, "gseed": gseed}, fmt, dict(r.choice(F["eopts"])), {}, r.choice(["load", "load_scene"])
     if kind == "path":
         fmt = r.choice([f for f in reg["path"] if f in PATH_FORMATS])
         F = PATH_FORMATS[fmt]
         classes = (list(PATH2D_CLASSES) if 2 in F["dims"] else []) + ([c for c in PATH3D_CLASSES if F["arcs"] or c != "arcs3d"] if 3 in F["dims"] else [])
+        if F.get("curves"):
+            classes += list(PATH2D_CURVE_CLASSES) + list(PATH3D_CURVE_CLASSES)
         eo = dict(r.choice(F["eopts"]))
         if fmt == "svg" and r.random() < 0.5:
             eo["digits"] = r.randint(4, 14)
